@@ -31,7 +31,7 @@ def obssim_kwargs(**over):
 
 
 def make_event_list(time, pi=None, phi=None, ra=None, dec=None, w=None, src=0, detx=None, dety=None, mc_energy=None,
-                    tag=None, ra0=30., dec0=45., energy=None):
+                    tag=None, ra0=30., dec0=45., energy=None, mc_ra=None, mc_dec=None):
     """An xEventList with every column filled. `tag` (int) is stored in both PHA and MC_PHA."""
     time = numpy.asarray(time, dtype=float)
     n = len(time)
@@ -47,7 +47,11 @@ def make_event_list(time, pi=None, phi=None, ra=None, dec=None, w=None, src=0, d
     x, y = standard_radec_to_xy(ra, dec, ra0, dec0)
     mc_energy = energy if mc_energy is None else numpy.asarray(mc_energy, dtype=float)
     tag = pi.astype(int) if tag is None else numpy.asarray(tag, dtype=int)
-    el.set_seed_columns(mc_energy, tag, pi.astype(float), ra, dec, x, y, phi, phi)
+    # true (Monte Carlo) sky positions: the measured ones unless given (a PSF displaces the measured position from the true one)
+    mc_ra = ra if mc_ra is None else numpy.asarray(mc_ra, dtype=float)
+    mc_dec = dec if mc_dec is None else numpy.asarray(mc_dec, dtype=float)
+    mx, my = standard_radec_to_xy(mc_ra, mc_dec, ra0, dec0)
+    el.set_seed_columns(mc_energy, tag, pi.astype(float), mc_ra, mc_dec, mx, my, phi, phi)
     el.set_rec_columns(tag, pi.astype(float), energy, ra, dec, x, y, z if detx is None else numpy.asarray(detx, dtype=float),
                        z if dety is None else numpy.asarray(dety, dtype=float))
     if w is not None:
